@@ -6,6 +6,7 @@ from construct.core import Switch
 from construct.expr import this
 
 from smpl_extract.util.fat import RequestedInvalidSector
+from smpl_extract.util.stream import SectorReadError
 
 from .data_types import FileType
 from .data_types import InvalidCharacter
@@ -42,9 +43,15 @@ class FileAdapter(Subconstruct):
                 stream, 
                 **context
             )
-        except (RequestedInvalidSector, InvalidCharacter, struct.error) as e:
+        except (
+                RequestedInvalidSector, 
+                InvalidCharacter, 
+                struct.error, 
+                SectorReadError
+        ) as e:
             # struct.error: compiled structs unpack a short read (file 
             # shorter than its header) without construct's length check
+            # SectorReadError: the image ends inside this file's header
             raise ConstructError from e
 
         return file
